@@ -172,6 +172,9 @@ def fmtOut : Eng.Out → String
   | .entries ps => "[" ++ ",".intercalate (ps.map fun (p, tr) => if tr = 0 then fmtPay p else s!"{fmtPay p}+{tr}") ++ "]"
   | .num n => toString n
   | .flag b => if b then "1" else "0"
+  | .names l => "[" ++ ",".intercalate ((l.toArray.qsort (· < ·)).toList.map toString) ++ "]"
+  | .trk none => "none"
+  | .trk (some f) => s!"{f.locked},{f.ckpt},{f.total},{if f.fully then 1 else 0}"
 
 def parseEngOp (st : DState) (toks : List String) : Option Eng.Op :=
   match toks with
@@ -179,6 +182,9 @@ def parseEngOp (st : DState) (toks : List String) : Option Eng.Op :=
   | ["open"] => some (.open_ st.mode)
   | ["close"] => some .close
   | ["restart"] => some .restart
+  | ["kill"] => some .kill
+  | ["ls"] => some .ls
+  | ["trk", n] => n.toNat?.map Eng.Op.trk
   | ["append", t, p] => do some (.append (← parseTopic t) (← parsePay p))
   | ["batch", t, ps] => do some (.batch (← parseTopic t) (← parsePays ps))
   | ["next", t, cp] => do some (.next (← parseTopic t) (cp == "1"))
@@ -221,6 +227,7 @@ def handleEng (st : DState) (toks : List String) : Option (DState × String) :=
         | .open_ _ => if st.opens = 0 then (some {}, 1, "") else (none, st.opens + 1, "")
         | .close => (none, st.opens, "")
         | .restart => (none, st.opens, "")
+        | .kill => (none, st.opens, "")
         | _ =>
           if q.contains "sealThenAllocFail" then (none, st.opens, "")
           else match st.aeng, aop with
